@@ -69,3 +69,14 @@ Theorem C14_json_decoding : forall re_ok re_match o E P c j f, decoded_env E -> 
   match run re_ok re_match o E P c f with Done r => Done (pp_out re_ok r) | Panic => Panic | OutOfFuel => OutOfFuel end.
 Proof. exact decoded_then_preprocessed_same_evaluation. Qed.
 Print Assumptions C14_json_decoding.
+
+Theorem C14_hypotheses_nonvacuous :
+  let cl := mkclause [] (new_literal_ref (s "email")) op_in [JStr (s "a"); JStr (s "b")] false cpre_none in
+  let vr := mkvorr (Some 0) (mkrollout [] [] [] ref_undef None) in
+  let f := mkflag (s "f") true [] [mktarget [] [s "u1"; s "u2"] 1 None] [] [mkrule vr (s "r") [cl] false] vr None [JBool true; JBool false] [] false false
+                  (mkfmeta 0 false false 0 false false false None None) in
+  let sg := mksegment (s "sg") [s "u1"] [s "u3"] [mksegtarget (s "org") [s "o1"] None] [] (s "salt") [mksegrule (s "sr") [cl] None ref_undef []]
+                      false [] 1 None false None None in
+  plain_flag f /\ plain_env (mkenv [(s "f", f)] [(s "sg", sg)]).
+Proof. exact plain_store_exists. Qed.
+Print Assumptions C14_hypotheses_nonvacuous.
